@@ -5,23 +5,16 @@ open Twin
 
 def isSpaceAt (o : Option ANode) : Bool := (o.map (·.kind == .space)).getD false
 
-mutual
-/-- `ends_with_linebreak`: the last token of the node is a linebreak, at any depth. -/
-def endsWithLinebreak : ANode → Bool
-  | .leaf _ _ _ => false
-  | .inner _ cs _ => endsWithLinebreakL cs
-def endsWithLinebreakL : List ANode → Bool
-  | [] => false
-  | [a] => a.kind == .linebreak || endsWithLinebreak a
-  | _ :: rest => endsWithLinebreakL rest
-end
-
 def equationItem (e : Env) (r : Rec) (cs : List ANode) (isBlock : Bool) (c : Ctx) (child : ANode) : M (Option Doc) := do
   if child.kind != .math then return none
   if child.children.length == 0 then return none
   let lastIsLinebreak := ((((child.children.filter (fun x => isExpr x || x.kind == .space)).getLast?).map (·.kind == .linebreak)).getD false)
     || endsWithLinebreak child
-  let trailing := lastIsLinebreak && isSpaceAt (cs.reverse)[1]? && (((cs.reverse)[2]?).map (·.kind == .math)).getD false
+  -- the body is followed by a line break and then something else (a comment)
+  let followedByBreak := (((cs.dropWhile (fun x => x.attrs.id != child.attrs.id))[1]?).map
+    (fun x => x.kind == .space && hasLinebreak x.text)).getD false
+  let trailing := lastIsLinebreak && (followedByBreak ||
+    (isSpaceAt (cs.reverse)[1]? && (((cs.reverse)[2]?).map (·.kind == .math)).getD false))
   let body ← r.math c child
   pure (some (if !isBlock && trailing then body ++ e.soft " " else body))
 
